@@ -15,6 +15,37 @@ use verif_harness::Opts;
 enum Arg {
     Var(usize),
     Lit(i64),
+    /// container value of kind 'V' (Vec E), 'S' (Set E), 'M' (MultiSet E), 'P' (Pair E E) over variables
+    Cont(char, Vec<usize>),
+}
+
+const CONT_KINDS: [char; 4] = ['V', 'S', 'M', 'P'];
+fn is_cont(c: char) -> bool {
+    CONT_KINDS.contains(&c)
+}
+fn cont_sort(c: char) -> &'static str {
+    match c {
+        'V' => "VE",
+        'S' => "SE",
+        'M' => "ME",
+        _ => "PE",
+    }
+}
+fn arg_text(a: &Arg) -> String {
+    match a {
+        Arg::Var(v) => vname(*v),
+        Arg::Lit(i) => format!("{i}"),
+        Arg::Cont(k, els) => {
+            let xs: Vec<String> = els.iter().map(|v| vname(*v)).collect();
+            match k {
+                'V' if els.is_empty() => "(vec-empty)".to_string(),
+                'V' => format!("(vec-of {})", xs.join(" ")),
+                'S' => format!("(set-of {})", xs.join(" ")),
+                'M' => format!("(multiset-of {})", xs.join(" ")),
+                _ => format!("(pair {})", xs.join(" ")),
+            }
+        }
+    }
 }
 
 #[derive(Clone, Debug, PartialEq, Eq, Hash)]
@@ -29,7 +60,7 @@ enum Cmd {
 
 #[derive(Clone, Debug, PartialEq, Eq, Hash)]
 struct FnDecl {
-    /// 'E' = e-class child, 'I' = i64 child
+    /// 'E' = e-class child, 'I' = i64 child, 'V'/'S'/'M'/'P' = Vec/Set/MultiSet/Pair of e-classes
     sig: Vec<char>,
     cost: Option<u64>,
     unext: bool,
@@ -60,18 +91,30 @@ impl Spec {
     fn expr_of(&self, f: usize, args: &[Arg]) -> String {
         let mut s = format!("({}", fname(f));
         for a in args {
-            match a {
-                Arg::Var(v) => s.push_str(&format!(" {}", vname(*v))),
-                Arg::Lit(i) => s.push_str(&format!(" {i}")),
-            }
+            s.push(' ');
+            s.push_str(&arg_text(a));
         }
         s.push(')');
         s
     }
+    fn has_containers(&self) -> bool {
+        self.fns.iter().any(|f| f.sig.iter().any(|c| is_cont(*c)))
+    }
     fn program(&self) -> String {
         let mut p = String::from("(sort E)\n");
+        if self.has_containers() {
+            p.push_str("(sort VE (Vec E))\n(sort SE (Set E))\n(sort ME (MultiSet E))\n(sort PE (Pair E E))\n");
+        }
         for (i, f) in self.fns.iter().enumerate() {
-            let ins: Vec<&str> = f.sig.iter().map(|c| if *c == 'E' { "E" } else { "i64" }).collect();
+            let ins: Vec<&str> = f
+                .sig
+                .iter()
+                .map(|c| match *c {
+                    'E' => "E",
+                    'I' => "i64",
+                    k => cont_sort(k),
+                })
+                .collect();
             p.push_str(&format!("(constructor {} ({}) E", fname(i), ins.join(" ")));
             if let Some(c) = f.cost {
                 p.push_str(&format!(" :cost {c}"));
@@ -93,6 +136,10 @@ impl Spec {
                 Cmd::Subsume(i) => p.push_str(&format!("(subsume {})\n", self.expr_of(defs[*i].0, &defs[*i].1))),
                 Cmd::Delete(i) => p.push_str(&format!("(delete {})\n", self.expr_of(defs[*i].0, &defs[*i].1))),
             }
+        }
+        if self.has_containers() {
+            // containers are re-canonicalised by the rebuild of a run
+            p.push_str("(run-schedule (saturate (run)))\n");
         }
         p
     }
@@ -119,6 +166,7 @@ impl Spec {
                         .map(|a| match a {
                             Arg::Var(v) => format!("\"x{v}\""),
                             Arg::Lit(i) => format!("{i}"),
+                            Arg::Cont(k, els) => format!("{{\"c\":\"{k}\",\"e\":{els:?}}}"),
                         })
                         .collect::<Vec<_>>()
                         .join(",")
@@ -162,6 +210,10 @@ impl Spec {
                             .iter()
                             .map(|x| match x.as_str() {
                                 Some(s) => Arg::Var(s[1..].parse().unwrap()),
+                                None if x.is_object() => Arg::Cont(
+                                    x["c"].as_str().unwrap().chars().next().unwrap(),
+                                    x["e"].as_array().unwrap().iter().map(|e| e.as_u64().unwrap() as usize).collect(),
+                                ),
                                 None => Arg::Lit(x.as_i64().unwrap()),
                             })
                             .collect(),
@@ -187,8 +239,40 @@ const BIG: [u64; 6] = [
     3074457345618258603,
 ];
 
+/// a random argument of kind `c` over the variables 0..nlet; `must` (if any) is placed in the first
+/// e-class position (directly or inside the container)
+fn gen_arg(r: &mut Rng, c: char, nlet: usize, must: &mut Option<usize>) -> Arg {
+    let forced = must.is_some();
+    let mut var = |r: &mut Rng| match must.take() {
+        Some(x) => x,
+        None => r.below(nlet),
+    };
+    match c {
+        'E' => Arg::Var(var(r)),
+        'I' => Arg::Lit(r.below(3) as i64),
+        'P' => {
+            let a = var(r);
+            let b = var(r);
+            Arg::Cont('P', vec![a, b])
+        }
+        'V' => {
+            let n = if forced { r.range(1, 3) } else { *r.pick(&[0, 1, 1, 2, 3]) };
+            Arg::Cont('V', (0..n).map(|_| var(r)).collect())
+        }
+        k => {
+            let n = r.range(1, 3);
+            Arg::Cont(k, (0..n).map(|_| var(r)).collect())
+        }
+    }
+}
+fn takes_class(sig: &[char]) -> bool {
+    sig.iter().any(|c| *c == 'E' || is_cont(*c))
+}
+
 fn gen_spec(r: &mut Rng) -> Spec {
     let saturating = r.chance(1, 6);
+    // link-only shapes: some constructors take containers of e-classes
+    let containers = r.chance(1, 3);
     let nfn = r.range(2, 7);
     // one constructor is guaranteed to have no e-class child (so that terms exist), at a random position
     let base = r.below(nfn);
@@ -197,7 +281,13 @@ fn gen_spec(r: &mut Rng) -> Spec {
         let ar = if i == base { *r.pick(&[0, 0, 0, 1]) } else { *r.pick(&[0, 1, 1, 1, 2, 2, 3]) };
         let mut sig = Vec::new();
         for _ in 0..ar {
-            sig.push(if i == base || r.chance(1, 5) { 'I' } else { 'E' });
+            sig.push(if i == base || r.chance(1, 5) {
+                'I'
+            } else if containers && r.chance(1, 2) {
+                *r.pick(&CONT_KINDS)
+            } else {
+                'E'
+            });
         }
         let cost = if saturating && r.chance(2, 3) {
             Some(*r.pick(&BIG))
@@ -222,40 +312,22 @@ fn gen_spec(r: &mut Rng) -> Spec {
         let k = r.below(100);
         if nlet > 0 && k < 8 {
             // self-loop: x = (F .. x ..) for a constructor with an e-class child
-            let cands: Vec<usize> = (0..nfn).filter(|f| fns[*f].sig.contains(&'E')).collect();
+            let cands: Vec<usize> = (0..nfn).filter(|f| takes_class(&fns[*f].sig)).collect();
             if !cands.is_empty() {
                 let f = *r.pick(&cands);
                 let x = r.below(nlet);
-                let mut first = true;
-                let args = fns[f]
-                    .sig
-                    .iter()
-                    .map(|c| {
-                        if *c == 'E' {
-                            if first {
-                                first = false;
-                                Arg::Var(x)
-                            } else {
-                                Arg::Var(r.below(nlet))
-                            }
-                        } else {
-                            Arg::Lit(r.below(3) as i64)
-                        }
-                    })
-                    .collect();
+                let mut must = Some(x);
+                let args = fns[f].sig.iter().map(|c| gen_arg(r, *c, nlet, &mut must)).collect();
                 cmds.push(Cmd::Let(f, args));
                 cmds.push(Cmd::Union(x, nlet));
                 nlet += 1;
             }
         } else if nlet == 0 || k < 72 {
             // a let whose E-children are earlier variables
-            let cands: Vec<usize> = (0..nfn).filter(|f| nlet > 0 || !fns[*f].sig.contains(&'E')).collect();
+            let cands: Vec<usize> = (0..nfn).filter(|f| nlet > 0 || !takes_class(&fns[*f].sig)).collect();
             let f = *r.pick(&cands);
-            let args = fns[f]
-                .sig
-                .iter()
-                .map(|c| if *c == 'E' { Arg::Var(r.below(nlet)) } else { Arg::Lit(r.below(3) as i64) })
-                .collect();
+            let mut must = None;
+            let args = fns[f].sig.iter().map(|c| gen_arg(r, *c, nlet, &mut must)).collect();
             cmds.push(Cmd::Let(f, args));
             nlet += 1;
         } else if k < 92 {
@@ -275,6 +347,25 @@ fn gen_spec(r: &mut Rng) -> Spec {
 enum Ch {
     Class(usize),
     Prim(i64),
+    /// container of e-classes: kind, element classes (sorted for Set / MultiSet; Set without repeats)
+    Cont(char, Vec<usize>),
+}
+fn mk_cont(k: char, mut els: Vec<usize>) -> Ch {
+    if k == 'S' || k == 'M' {
+        els.sort();
+    }
+    if k == 'S' {
+        els.dedup();
+    }
+    Ch::Cont(k, els)
+}
+/// e-classes a child mentions, with multiplicity
+fn ch_classes(a: &Ch) -> Vec<usize> {
+    match a {
+        Ch::Class(c) => vec![*c],
+        Ch::Prim(_) => vec![],
+        Ch::Cont(_, els) => els.clone(),
+    }
 }
 #[derive(Clone, Debug)]
 struct Row {
@@ -319,8 +410,25 @@ fn dump(eg: &EGraph, spec: &Spec) -> Dump {
                 if *k == 'E' {
                     let n = ids.len();
                     args.push(Ch::Class(*ids.entry(val_rep(*v)).or_insert(n)));
-                } else {
+                } else if *k == 'I' {
                     args.push(Ch::Prim(eg.value_to_base::<i64>(*v)));
+                } else {
+                    use egglog::sort::{MultiSetContainer, PairContainer, SetContainer, VecContainer};
+                    let raw_els: Vec<egglog::Value> = match *k {
+                        'V' => eg.value_to_container::<VecContainer>(*v).expect("vec").data.clone(),
+                        'S' => eg.value_to_container::<SetContainer>(*v).expect("set").data.iter().copied().collect(),
+                        'M' => eg.value_to_container::<MultiSetContainer>(*v).expect("multiset").data.iter().copied().collect(),
+                        _ => {
+                            let p = eg.value_to_container::<PairContainer>(*v).expect("pair");
+                            vec![p.first, p.second]
+                        }
+                    };
+                    let mut els = Vec::new();
+                    for e in raw_els {
+                        let n = ids.len();
+                        els.push(*ids.entry(val_rep(e)).or_insert(n));
+                    }
+                    args.push(mk_cont(*k, els));
                 }
             }
             let n = ids.len();
@@ -333,6 +441,21 @@ fn dump(eg: &EGraph, spec: &Spec) -> Dump {
 
 const INF: u128 = 1u128 << 120;
 
+/// true (unsaturated) cost of a row under a cost table: head + children; a base value costs 1, a
+/// container costs the sum of its elements (container_cost default), None if a class has no cost
+fn row_true_cost(spec: &Spec, r: &Row, cur: &[Option<u128>]) -> Option<u128> {
+    let mut tot: u128 = spec.fns[r.f].cost.unwrap_or(1) as u128;
+    for a in &r.args {
+        if let Ch::Prim(_) = a {
+            tot += 1;
+        }
+        for c in ch_classes(a) {
+            tot = (tot + cur[c]?).min(INF);
+        }
+    }
+    Some(tot)
+}
+
 /// independent least fixpoint: synchronous (Jacobi) iteration in u128 with true sums
 fn least_fixpoint(spec: &Spec, d: &Dump, ncls: usize) -> Vec<Option<u128>> {
     let mut cur: Vec<Option<u128>> = vec![None; ncls];
@@ -342,19 +465,10 @@ fn least_fixpoint(spec: &Spec, d: &Dump, ncls: usize) -> Vec<Option<u128>> {
             if r.sub || spec.fns[r.f].unext {
                 continue;
             }
-            let mut tot: u128 = spec.fns[r.f].cost.unwrap_or(1) as u128;
-            let mut ok = true;
-            for a in &r.args {
-                match a {
-                    Ch::Prim(_) => tot += 1,
-                    Ch::Class(c) => match cur[*c] {
-                        Some(v) => tot = (tot + v).min(INF),
-                        None => ok = false,
-                    },
+            if let Some(tot) = row_true_cost(spec, r, &cur) {
+                if next[r.cls].map_or(true, |o| tot < o) {
+                    next[r.cls] = Some(tot);
                 }
-            }
-            if ok && next[r.cls].map_or(true, |o| tot < o) {
-                next[r.cls] = Some(tot);
             }
         }
         if next == cur {
@@ -393,6 +507,16 @@ fn term_to_tree(td: &TermDag, id: TermId, budget: &mut usize) -> Option<T> {
     }
 }
 
+fn cont_head(name: &str) -> Option<char> {
+    match name {
+        "vec-of" | "vec-empty" => Some('V'),
+        "set-of" | "set-empty" => Some('S'),
+        "multiset-of" => Some('M'),
+        "pair" => Some('P'),
+        _ => None,
+    }
+}
+
 /// tree cost under the :cost annotations with u64 saturating add, memoised over the DAG
 fn dag_cost(spec: &Spec, td: &TermDag, id: TermId, memo: &mut HashMap<TermId, u64>) -> Option<u64> {
     if let Some(c) = memo.get(&id) {
@@ -401,8 +525,13 @@ fn dag_cost(spec: &Spec, td: &TermDag, id: TermId, memo: &mut HashMap<TermId, u6
     let c = match td.get(id) {
         Term::Lit(_) => 1u64,
         Term::App(name, ch) => {
-            let f: usize = name.strip_prefix('F')?.parse().ok()?;
-            let mut tot = spec.fns.get(f)?.cost.unwrap_or(1);
+            // a container term costs the sum of its elements (identity 0 for the container itself)
+            let mut tot = if cont_head(name).is_some() {
+                0
+            } else {
+                let f: usize = name.strip_prefix('F')?.parse().ok()?;
+                spec.fns.get(f)?.cost.unwrap_or(1)
+            };
             for c in ch {
                 tot = tot.saturating_add(dag_cost(spec, td, *c, memo)?);
             }
@@ -427,6 +556,16 @@ fn dag_eval(
     }
     let res = match td.get(id) {
         Term::Lit(Literal::Int(i)) => Ok(Ch::Prim(*i)),
+        Term::App(name, ch) if cont_head(name).is_some() => (|| {
+            let mut els = Vec::new();
+            for c in ch {
+                match dag_eval(spec, d, td, *c, memo)? {
+                    Ch::Class(x) => els.push(x),
+                    other => return Err(format!("container element evaluates to {other:?}")),
+                }
+            }
+            Ok(mk_cont(cont_head(name).unwrap(), els))
+        })(),
         Term::App(name, ch) => (|| {
             let f: usize = name
                 .strip_prefix('F')
@@ -573,8 +712,13 @@ fn run_case(spec: &Spec) -> Outcome {
     let mut reach = vec![vec![false; ncls]; ncls];
     for r in &allowed_rows {
         for a in &r.args {
-            if let Ch::Class(d2) = a {
-                reach[r.cls][*d2] = true;
+            for d2 in ch_classes(a) {
+                reach[r.cls][d2] = true;
+            }
+            if let Ch::Cont(_, els) = a {
+                if els.iter().any(|e| *e == r.cls) {
+                    out.hist.push("row_contains_own_class_in_container");
+                }
             }
         }
     }
@@ -590,6 +734,31 @@ fn run_case(spec: &Spec) -> Outcome {
     if (0..ncls).any(|c| reach[c][c]) {
         out.hist.push("graph_cyclic");
     }
+    let link_only = spec.has_containers();
+    if link_only {
+        out.hist.push("graph_with_container_constructors_link_only");
+        // a cycle that needs a hop through a container: cyclic with, acyclic without container edges
+        let mut plain = vec![vec![false; ncls]; ncls];
+        for r in &allowed_rows {
+            for a in &r.args {
+                if let Ch::Class(d2) = a {
+                    plain[r.cls][*d2] = true;
+                }
+            }
+        }
+        for k in 0..ncls {
+            for i in 0..ncls {
+                for j in 0..ncls {
+                    if plain[i][k] && plain[k][j] {
+                        plain[i][j] = true;
+                    }
+                }
+            }
+        }
+        if (0..ncls).any(|c| reach[c][c] && !plain[c][c] && fix[c].is_some()) {
+            out.hist.push("graph_cycle_through_container_class_with_term");
+        }
+    }
     if (0..ncls).any(|c| reach[c][c] && fix[c].is_some()) {
         out.hist.push("graph_cyclic_class_with_term");
     }
@@ -602,20 +771,7 @@ fn run_case(spec: &Spec) -> Outcome {
             let n = allowed_rows
                 .iter()
                 .filter(|r| r.cls == c)
-                .filter(|r| {
-                    let mut tot = spec.fns[r.f].cost.unwrap_or(1) as u128;
-                    let mut ok = true;
-                    for a in &r.args {
-                        match a {
-                            Ch::Prim(_) => tot += 1,
-                            Ch::Class(x) => match fix[*x] {
-                                Some(v) => tot = (tot + v).min(INF),
-                                None => ok = false,
-                            },
-                        }
-                    }
-                    ok && tot == best
-                })
+                .filter(|r| row_true_cost(spec, r, &fix) == Some(best))
                 .count();
             if n >= 2 {
                 ties = true;
@@ -832,12 +988,17 @@ fn run_case(spec: &Spec) -> Outcome {
             coq_list(&r.args, |a| match a {
                 Ch::Class(c) => format!("CClass {c}"),
                 Ch::Prim(i) => format!("CPrim {}", coq_z(*i)),
+                Ch::Cont(..) => "CPrim 0%Z".to_string(), // never emitted: container cases are link-only
             }),
             r.cls,
             coq_bool(r.sub)
         ))
     );
-    out.coq_case = Some(format!("({g},\n  {},\n  {})", coq_list(&coq_roots, |s| s.clone()), coq_list(&coq_vars, |s| s.clone())));
+    // containers of e-classes are not covered by the Coq model: those cases are checked on the
+    // implementation only (predicates above) and kept out of the kernel-evaluated case files
+    if !link_only {
+        out.coq_case = Some(format!("({g},\n  {},\n  {})", coq_list(&coq_roots, |s| s.clone()), coq_list(&coq_vars, |s| s.clone())));
+    }
     out.sample = format!(
         "{{\"program\":{},\"rows\":{},\"classes\":{},\"observed\":[{}]}}",
         json_str(&spec.program()),
@@ -934,6 +1095,7 @@ pub fn run(o: &Opts) -> i32 {
     let mut cls_hist: BTreeMap<String, usize> = BTreeMap::new();
     let mut samples: Vec<String> = Vec::new();
     let last_case = o.out.join("last_case.json");
+    let mut link_only_cases = 0usize;
     let mut emit = |spec: &Spec, w: &mut CaseWriter, tag: &str| {
         // if the engine kills the process (stack overflow in reconstruction), this file is the replay
         let _ = std::fs::write(&last_case, spec.json());
@@ -945,6 +1107,9 @@ pub fn run(o: &Opts) -> i32 {
             nontrivial += 1;
         }
         *hist.entry(format!("source_{tag}")).or_insert(0) += 1;
+        if out.coq_case.is_none() {
+            link_only_cases += 1;
+        }
         for h in &out.hist {
             *hist.entry(h.to_string()).or_insert(0) += 1;
         }
@@ -970,6 +1135,9 @@ pub fn run(o: &Opts) -> i32 {
         let mut files: Vec<_> = std::fs::read_dir(&corpus).map(|rd| rd.flatten().map(|e| e.path()).collect()).unwrap_or_default();
         files.sort();
         for f in files {
+            if o.extra.iter().any(|x| x == "--no-corpus") {
+                break; // self-test of the generator alone
+            }
             if f.extension().map_or(false, |e| e == "json") {
                 let v: serde_json::Value = serde_json::from_str(&std::fs::read_to_string(&f).unwrap()).expect("corpus json");
                 emit(&Spec::from_json(&v), &mut w, "corpus");
@@ -993,11 +1161,11 @@ pub fn run(o: &Opts) -> i32 {
         by_key.entry(k.clone()).or_insert((0, what.clone(), input.clone())).0 += 1;
     }
     let report = format!(
-        "{{\"sub\":\"extract\",\"cases\":{},\"shards\":{},\"distinct_nontrivial\":{},\"rule\":{},\"obs_hist\":{},\"rows_hist\":{},\"classes_hist\":{},\"samples\":[{}],\"violations\":[{}]}}\n",
+        "{{\"sub\":\"extract\",\"cases\":{},\"shards\":{},\"distinct_nontrivial\":{},\"rule\":{},\"obs_hist\":{},\"rows_hist\":{},\"classes_hist\":{},\"samples\":[{}],\"violations\":[{}],\"extra_coverage\":{{\"c07_link_only_container_cases\":{},\"c07_model_cases\":{}}}}}\n",
         w.total,
         w.shards,
         nontrivial,
-        json_str("seeded random egglog programs over one eq-sort E and i64: 2-7 constructors (arity 0-3, :cost default/0/small/near 2^63, :unextractable), 3-30 steps of let/union/subsume/delete/self-loop (x = F(..x..)) (unions create cyclic classes); every distinct root class is extracted with (extract x), EGraph::extract_value and (extract x k); a case is non-trivial iff it has >= 3 rows and some class has >= 2 allowed e-nodes; distinct by the generated program"),
+        json_str("seeded random egglog programs over one eq-sort E, i64 and (one case in three, implementation-only = link-only, not written to the Coq case files) Vec/Set/MultiSet/Pair-of-E container arguments incl. cycles through containers: 2-7 constructors (arity 0-3, :cost default/0/small/near 2^63, :unextractable), 3-30 steps of let/union/subsume/delete/self-loop (x = F(..x..)) (unions create cyclic classes); every distinct root class is extracted with (extract x), EGraph::extract_value and (extract x k); a case is non-trivial iff it has >= 3 rows and some class has >= 2 allowed e-nodes; distinct by the generated program"),
         serde_json::to_string(&hist).unwrap(),
         serde_json::to_string(&rows_hist).unwrap(),
         serde_json::to_string(&cls_hist).unwrap(),
@@ -1012,7 +1180,9 @@ pub fn run(o: &Opts) -> i32 {
                 input
             ))
             .collect::<Vec<_>>()
-            .join(",")
+            .join(","),
+        link_only_cases,
+        w.total
     );
     std::fs::write(o.out.join("impl_report.json"), report).unwrap();
     0
